@@ -95,6 +95,7 @@ type parked struct {
 	seq   int
 	epoch int64  // driver decision count at arrival
 	goid  uint64 // filled on request (ties only)
+	wake  bool   // parked by Resume (a wake-up / goroutine entry), not at an ordinary yield site
 }
 
 type event struct {
@@ -132,6 +133,11 @@ type SchedCfg struct {
 	// the seed decides which goes first. Without it every goroutine runs until it blocks before the
 	// next event is processed, so handlers reacting to events at different instants never overlap.
 	Overlap bool `json:"overlap,omitempty"`
+	// Sticky: probability that the goroutine released last is released again when it parks at its
+	// next (ordinary) yield site, instead of a uniform choice among everything parked. Uniform choice
+	// at every statement makes long uninterrupted stretches of one goroutine exponentially unlikely;
+	// races of the form "A stops here, B runs a whole handler, A goes on" need exactly that.
+	Sticky float64 `json:"sticky,omitempty"`
 }
 
 // World owns scheduling, the event queue and the history.
@@ -165,6 +171,7 @@ type World struct {
 	Stalls     int64
 	TieBreaks  int64 // goroutine-id requests (same-site arrivals within one decision)
 	epoch      int64
+	relEpoch   int64 // epoch in which the last release happened
 	Overlaps   int64 // events run while goroutines were parked
 	StalledFor time.Duration
 	stalled    bool
@@ -306,7 +313,7 @@ func Resume(site string) {
 	if w == nil || w.draining.Load() || w.isDriver() {
 		return
 	}
-	w.park(site)
+	w.parkAs(site, true)
 }
 
 // YieldAlways parks whenever level-2 scheduling is on at all (used by seams: timer armed, lock handoff).
@@ -324,8 +331,10 @@ func YieldAlways(site string) {
 	w.park(site)
 }
 
-func (w *World) park(site string) {
-	p := &parked{site: site, ch: make(chan int)}
+func (w *World) park(site string) { w.parkAs(site, false) }
+
+func (w *World) parkAs(site string, wake bool) {
+	p := &parked{site: site, ch: make(chan int), wake: wake}
 	w.mu.Lock()
 	w.pseq++
 	p.seq = w.pseq
@@ -495,6 +504,16 @@ func (w *World) Run(until time.Duration) {
 					}
 				} else {
 					i = w.rng.Intn(len(w.parked))
+					if w.Cfg.Sticky > 0 && w.rng.Float() < w.Cfg.Sticky {
+						// go on with the goroutine released last, if it is here again: the only one that can
+						// have reached an ordinary yield site since
+						for j, q := range w.parked {
+							if !q.wake && q.epoch == w.relEpoch {
+								i = j
+								break
+							}
+						}
+					}
 				}
 			}
 			p := w.parked[i]
@@ -511,6 +530,7 @@ func (w *World) Run(until time.Duration) {
 				}
 				w.Trace = append(w.Trace, fmt.Sprintf("%d pick=%s rest=%v", w.Now(), p.site, l))
 			}
+			w.relEpoch = w.epoch
 			w.mu.Unlock()
 			w.inDriver.Store(false)
 			close(p.ch)
